@@ -22,6 +22,7 @@ import tracenorm
 import vlib
 
 PID = "C34"
+CONFIRM_BY_REPLAY = True   # a new deviation is reported only if replaying its stored case repeats it
 META = {
     "cat": "exploration",
     "text": "TLC enumerates all addon outputs of up to 2 (thorough: sampled 3) lines over 11 line kinds with both exit codes, three severity "
